@@ -183,6 +183,9 @@ def run(P, rep, tier):
     elif not okc and not bad_ids:
         raise AnalysisError('written ids not observed')
     # ---- R6 newline routing (writer part of C15-R3) -------------------------------------------
+    r11 = rep.rule('C02-R11', 'line endings written for content without a declared type are detected from the first line only', reference=1)
+    from sa.props.common import first_line_detection
+    first_line_detection(P, rep, r11)
     r6 = rep.rule('C02-R6', 'the newline the writer appends/checks is BOM-stripped in the section encoding', reference=2)
     from sa.props import c15
     strip = P.func('pydiffx.utils.text', 'strip_bom')
